@@ -97,6 +97,56 @@ def _operator_normal_form(tree):
     return T().visit(tree)
 
 
+def _map_repeat_normal_form(tree):
+    """map(f, xs, itertools.repeat(c)) is map(lambda e: f(e, c), xs)."""
+    mods, names = set(), set()
+    for st in tree.body:
+        if isinstance(st, ast.Import):
+            for a in st.names:
+                if a.name == 'itertools':
+                    mods.add(a.asname or 'itertools')
+        elif isinstance(st, ast.ImportFrom) and st.module == 'itertools':
+            for a in st.names:
+                if a.name == 'repeat':
+                    names.add(a.asname or 'repeat')
+    if not mods and not names:
+        return tree
+
+    def is_repeat(e):
+        if not (isinstance(e, ast.Call) and len(e.args) == 1 and
+                not e.keywords):
+            return False
+        f = e.func
+        return (isinstance(f, ast.Attribute) and f.attr == 'repeat' and
+                isinstance(f.value, ast.Name) and f.value.id in mods) or (
+            isinstance(f, ast.Name) and f.id in names)
+
+    class T(ast.NodeTransformer):
+        def visit_Call(self, n):
+            self.generic_visit(n)
+            if isinstance(n.func, ast.Name) and n.func.id == 'map' and \
+                    len(n.args) >= 3 and not n.keywords and all(
+                        is_repeat(a) for a in n.args[2:]) and isinstance(
+                        n.args[0], (ast.Name, ast.Attribute)):
+                extra = [a.args[0] for a in n.args[2:]]
+                if not all(isinstance(x, (ast.Name, ast.Constant,
+                                          ast.Attribute)) for x in extra):
+                    return n
+                lam = ast.Lambda(
+                    args=ast.arguments(
+                        posonlyargs=[], args=[ast.arg(arg='_elem')],
+                        kwonlyargs=[], kw_defaults=[], defaults=[]),
+                    body=ast.Call(func=n.args[0],
+                                  args=[ast.Name(id='_elem',
+                                                 ctx=ast.Load())] + extra,
+                                  keywords=[]))
+                new = ast.Call(func=n.func, args=[lam, n.args[1]],
+                               keywords=[])
+                return ast.fix_missing_locations(ast.copy_location(new, n))
+            return n
+    return T().visit(tree)
+
+
 class FuncInfo:
     __slots__ = ('module', 'qualname', 'node', 'cls', 'parent_func',
                  'is_method')
@@ -162,7 +212,8 @@ class Module:
         self.path = path
         with open(path, encoding='utf-8') as f:
             self.src = f.read()
-        self.tree = _operator_normal_form(ast.parse(self.src, filename=path))
+        self.tree = _map_repeat_normal_form(_operator_normal_form(
+            ast.parse(self.src, filename=path)))
         _attach_parents(self.tree)
         self.imports = {}     # local alias -> dotted target
         self.constants = {}   # top-level NAME = <expr>  (last assignment)
